@@ -314,12 +314,30 @@ def queries():
     Q["pivoted_cholesky"] = lambda X, ar, rng, tag: X.pivoted_cholesky(rank=2)
     Q["to_dense"] = lambda X, ar, rng, tag: X.to_dense()
     Q["matmul"] = lambda X, ar, rng, tag: X.matmul(rhs(X, ar, rng, tag))
+    Q["matmul_vec"] = lambda X, ar, rng, tag: X @ (_bt(ar, rng, X.shape, X.shape[-1], None, "rhs_" + tag) if len(X.shape) == 2 else rhs(X, ar, rng, tag, 1))
+    Q["t_matmul"] = lambda X, ar, rng, tag: X.mT @ rhs(X, ar, rng, tag)
+    Q["rmatmul"] = lambda X, ar, rng, tag: _bt(ar, rng, X.shape, 2, X.shape[-2], "lhs_" + tag) @ X
     Q["sqrt_inv_matmul"] = lambda X, ar, rng, tag: X.sqrt_inv_matmul(rhs(X, ar, rng, tag))
     Q["sum_batch"] = lambda X, ar, rng, tag: (X.sum(0).to_dense() if _is_op(X.sum(0)) else X.sum(0)) if len(X.shape) > 2 else X.sum(-1)
     Q["prod_batch"] = lambda X, ar, rng, tag: (X.prod(0).to_dense() if len(X.shape) > 2 else X.sum(-2))
     Q["solve_eye"] = lambda X, ar, rng, tag: X.solve(torch.eye(X.shape[-1], dtype=X.dtype))
     return Q
 
+
+# bases whose `_matmul` is a PASS-THROUGH (returns its argument or a view of it): results of the operator protocol closures may
+# alias the caller's rhs; an in-place update of such a result inside a wrapper class writes the caller's tensor
+_I = lambda n: {"cls": "Identity", "n": n, "batch": []}
+PASS_EXPR = {
+    "RootI": lambda rng, n: {"cls": "Root", "root": _I(n)},
+    "MatmulII": lambda rng, n: {"cls": "Matmul", "l": _I(n), "r": _I(n)},
+    "AddedDiagI": lambda rng, n: {"cls": "AddedDiag", "base": _I(n), "diag": {"cls": "Diag", "d": opbuild.rand_t(rng, [n], 1, 3)}},
+    "AddedDiagRootI": lambda rng, n: {"cls": "AddedDiag", "base": {"cls": "Root", "root": _I(n)}, "diag": {"cls": "ConstantDiag", "c": opbuild.rand_t(rng, [1], 1, 3), "n": n}},
+}
+PASS_DERIVS = ["none", "add_jitter", "add_diagonal_scalar", "add_diagonal_vector", "add_diag_operator", "add_tensor", "mul_const", "expand",
+               "getitem_full", "mT", "add_low_rank", "twin"]
+PASS_QUERIES = ["matmul", "matmul_vec", "t_matmul", "rmatmul", "solve", "solve_iterative", "inv_quad_logdet_iterative", "logdet_iterative",
+                "sample_iterative", "sqrt_inv_matmul", "root_decomposition_lanczos", "diagonalization_lanczos",
+                "root_inv_decomposition_lanczos_vectors", "to_dense"]
 
 DERIVS = list(derivations())
 QUERIES = list(queries())
@@ -332,7 +350,7 @@ def make_case(cls, dname, qname, warm, batch=None):
 
     def b(ar, rng):
         bs = batch if batch is not None else ([2] if (qname in BATCHED and dname != "expand") else [])
-        e = opbuild.gen(rng, cls, batch=list(bs), m=4, psd=True)
+        e = PASS_EXPR[cls](rng, 4) if cls in PASS_EXPR else opbuild.gen(rng, cls, batch=list(bs), m=4, psd=True)
         # built without registering in ar.ops: Arena.effects() would call K.to_dense() after every step and thereby fill K's caches;
         # the tracker compares the dense matrix of a cache-free twin instead, and K.to_dense() itself is compared at the very end
         K = ar._build(e, "K", torch.float64, False)
@@ -429,6 +447,12 @@ def grid_cells(seed, thorough, layouts):
                     idx += 1
                     warm = bool((idx // 4 + seed) % 2)
                     cells.append((make_case(cls, d, q, warm), layouts[(idx + seed) % 4]))
+    # pass-through bases: every (derivation, query) pair of the subsets above; quick: warm/cold and layout rotating, thorough: both, rotating
+    for ci, cls in enumerate(PASS_EXPR):
+        for di, d in enumerate(PASS_DERIVS):
+            for qi, q in enumerate(PASS_QUERIES):
+                for warm in ((False, True) if thorough else (bool((ci + di + qi + seed) % 2),)):
+                    cells.append((make_case(cls, d, q, warm), layouts[(ci + 2 * di + qi + seed + warm) % 4]))
     return cells
 
 
